@@ -229,6 +229,64 @@ def meta_unit(spec):
 
 
 # ---------------------------------------------------------------------------------------
+# C17: "the encoding named in its XML declaration": every encoding name the XML grammar allows
+# (EncName ::= [A-Za-z] ([A-Za-z0-9._] | '-')*), in either quote style and with white space around
+# the '=', is found by RE_ENCODING
+# ---------------------------------------------------------------------------------------
+ENCNAME = r'[A-Za-z][A-Za-z0-9._\-]*'
+ENC_SPECS = {
+    'double-quoted': r'encoding\s*=\s*"' + ENCNAME + '"',
+    'single-quoted': r"encoding\s*=\s*'" + ENCNAME + "'",
+}
+ENC_SAMPLES = ['Shift_JIS', 'euc_jp', 'iso_8859-1', 'ISO-8859-1', 'koi8_r', 'windows-1251', 'x.y', 'UTF-8']
+
+
+def xml_encoding_unit(spec):
+    import time
+    from .solve import solve_text
+    from .vc import real_module
+    t0 = time.time()
+    mod = real_module('utils.py')
+    pat = mod.RE_ENCODING
+    src = pat.pattern.decode('latin-1') if isinstance(pat.pattern, bytes) else pat.pattern
+    obls = []
+    try:
+        target, err = occurs(translate(src, pat.flags & re.I)), None
+    except Untranslatable as e:
+        target, err = None, str(e)
+    for form, text in ENC_SPECS.items():
+        o = {'name': 're_encoding.accepts[%s]' % form, 'expect': 'valid', 'okind': 'struct',
+             'text': 'every XML encoding name (EncName, %s) is matched by RE_ENCODING (language inclusion)' % form}
+        if target is None:
+            o.update(status='unknown', backend='regexlang', time=0.0, tried='translate', reason=err)
+            obls.append(o)
+            continue
+        q, _ = inclusion_query(occurs(translate(text, re.I)), target)
+        r = solve_text(q, False, t_z3=spec.get('t_z3', 40), t_cvc5=spec.get('t_cvc5', 40),
+                       both=spec.get('tier') == 'thorough')
+        o.update(backend=r['backend'], time=round(r['time'], 3), tried=r['tried'],
+                 status={'unsat': 'discharged', 'sat': 'failed'}.get(r['verdict'], 'unknown'))
+        if o['status'] == 'failed':
+            wit = None
+            q_ = '"' if form == 'double-quoted' else "'"
+            for name in ENC_SAMPLES:
+                decl = ('<?xml version=%s1.0%s encoding=%s%s%s?>' % (q_, q_, q_, name, q_)).encode('ascii')
+                got = mod.read_xml_encoding(decl + b'<a/>')
+                if got != name:
+                    wit = {'inputs': {'body': (decl + b'<a/>').decode('ascii')},
+                           'detail': 'read_xml_encoding returns %r instead of %r' % (got, name)}
+                    break
+            o['confirmed'] = wit is not None
+            if wit:
+                o['witness'] = wit
+        obls.append(o)
+    return {'unit': 'regexlang.xml_encoding', 'function': 'utils.py::RE_ENCODING / read_xml_encoding',
+            'obligations': obls, 'wall': time.time() - t0,
+            'trusted': ['translation of the pattern into an SMT regular expression (a counterexample is '
+                        'replayed on the real function)']}
+
+
+# ---------------------------------------------------------------------------------------
 # C10: message ids are computed with "whitespace collapsed and trimmed".  The K3 model of the
 # emitted helper __re_whitespace (pyvc/k3.py collapse_ws) is `re.sub(r'\s+', ' ', s)`; this unit
 # checks that the helper the compiler really emits is that function.
